@@ -197,3 +197,58 @@ void h_phb(void)
   if (iora_exc == EXC_NONE) { IORA_CANARY("h_phb: accepted"); } else { IORA_CANARY("h_phb: rejected"); }
   if (iora_exc == EXC_NONE && HB.seen) { IORA_CANARY("h_phb: accepted with a header line at GS"); }
 }
+
+/* ================= HttpClient::determineFraming: the decision table of RFC 9112 6.3 (written from the RFC, rules in order) ================= */
+/* environment contracts of the two callees for this proof: any result, recorded together with the argument they were called with */
+bool te_env(iora_sv v)
+__CPROVER_requires(IORA_TRUE && HD.te_called == 0)
+__CPROVER_assigns(HD.te_called, HD.te_ret, HD.te_p, HD.te_n)
+__CPROVER_ensures(HD.te_called != 0 && HD.te_ret == R && HD.te_p == v.p && HD.te_n == v.n)
+;
+uint64_t pcl_env(iora_sv v)
+__CPROVER_requires(IORA_TRUE && HD.cl_called == 0 && iora_exc == EXC_NONE)
+__CPROVER_assigns(iora_exc, HD.cl_called, HD.cl_throws, HD.cl_ret, HD.cl_p, HD.cl_n)
+__CPROVER_ensures(HD.cl_called != 0 && HD.cl_p == v.p && HD.cl_n == v.n)
+__CPROVER_ensures((iora_exc == EXC_NONE || iora_exc == EXC_HttpFramingError) && (HD.cl_throws != 0) == (iora_exc != EXC_NONE))
+__CPROVER_ensures(iora_exc == EXC_NONE ==> HD.cl_ret == R)
+;
+#define M_IS4(m_, a_, b_, c_, d_) (((m_).n == 4) && (m_).p[0] == (char)(a_) && (m_).p[1] == (char)(b_) && (m_).p[2] == (char)(c_) && (m_).p[3] == (char)(d_))
+#define M_HEAD M_IS4(method, 72, 69, 65, 68)
+#define M_CONNECT ((method.n == 7) && method.p[0] == (char)67 && method.p[1] == (char)79 && method.p[2] == (char)78 && method.p[3] == (char)78 && method.p[4] == (char)69 && method.p[5] == (char)67 && method.p[6] == (char)84)
+#define SC (resp->statusCode)
+#define RULE1 (M_HEAD || SC == 204 || SC == 304 || (SC >= 100 && SC < 200))
+#define HAS_TE (resp->headers.has_te != 0)
+#define HAS_CL (resp->headers.has_cl != 0)
+Framing df_contract(iora_sv method, const Response *resp, size_t effectiveCap)
+__CPROVER_requires(IORA_TRUE && iora_exc == EXC_NONE && method.n <= 64)
+__CPROVER_requires(__CPROVER_is_fresh(method.p, method.n + 1))
+__CPROVER_requires(__CPROVER_is_fresh(resp, sizeof(Response)))
+__CPROVER_requires(HD.te_called == 0 && HD.cl_called == 0)
+__CPROVER_assigns(iora_exc, HD)
+__CPROVER_ensures(iora_exc == EXC_NONE || iora_exc == EXC_HttpFramingError)
+/* D0 (rule 2, declared non-goal) a response to CONNECT is never framed */
+__CPROVER_ensures(M_CONNECT ==> !NOEXC)
+/* D1 (rule 1) HEAD / 1xx / 204 / 304: no body, whatever the header fields say; no header field is even evaluated */
+__CPROVER_ensures((!M_CONNECT && RULE1) ==> (NOEXC && R.mode == BodyMode_NoBody && R.contentLength == 0 && HD.te_called == 0 && HD.cl_called == 0))
+/* D3 (rule 3) Transfer-Encoding AND Content-Length: rejected */
+__CPROVER_ensures((!M_CONNECT && !RULE1 && HAS_TE && HAS_CL) ==> !NOEXC)
+/* D4 (rule 4) Transfer-Encoding alone: chunked iff the final coding of exactly that field value is chunked, else read until close */
+__CPROVER_ensures((!M_CONNECT && !RULE1 && HAS_TE && !HAS_CL) ==> (NOEXC && HD.te_called != 0 && HD.te_p == resp->headers.te.second.p && HD.te_n == resp->headers.te.second.n && R.contentLength == 0 \
+    && R.mode == (HD.te_ret ? BodyMode_Chunked : BodyMode_CloseDelimited)))
+/* D5 (rules 5/6) Content-Length alone: the list value of exactly that field is validated; invalid => rejected; above the cap => rejected; else exactly N octets */
+__CPROVER_ensures((!M_CONNECT && !RULE1 && !HAS_TE && HAS_CL) ==> (HD.cl_called != 0 && HD.cl_p == resp->headers.cl.second.p && HD.cl_n == resp->headers.cl.second.n && HD.te_called == 0))
+__CPROVER_ensures((!M_CONNECT && !RULE1 && !HAS_TE && HAS_CL && (HD.cl_throws != 0)) ==> !NOEXC)
+__CPROVER_ensures((!M_CONNECT && !RULE1 && !HAS_TE && HAS_CL && (HD.cl_throws == 0) && HD.cl_ret > effectiveCap) ==> !NOEXC)
+__CPROVER_ensures((!M_CONNECT && !RULE1 && !HAS_TE && HAS_CL && (HD.cl_throws == 0) && HD.cl_ret <= effectiveCap) ==> (NOEXC && R.mode == BodyMode_ContentLength && R.contentLength == HD.cl_ret))
+/* D8 (rule 8) neither: read until close */
+__CPROVER_ensures((!M_CONNECT && !RULE1 && !HAS_TE && !HAS_CL) ==> (NOEXC && R.mode == BodyMode_CloseDelimited && R.contentLength == 0 && HD.te_called == 0 && HD.cl_called == 0))
+;
+void h_df(void)
+{
+  iora_sv m; const Response *r; size_t cap;
+  Framing f = determineFraming(m, r, cap);
+  IORA_CANARY("h_df: returns");
+  if (iora_exc == EXC_NONE && f.mode == BodyMode_ContentLength) { IORA_CANARY("h_df: content-length"); }
+  if (iora_exc == EXC_NONE && f.mode == BodyMode_Chunked) { IORA_CANARY("h_df: chunked"); }
+  if (iora_exc != EXC_NONE) { IORA_CANARY("h_df: rejected"); }
+}
